@@ -1,5 +1,6 @@
 import QeepProps.C09
 import QeepProofs.MatMul
+import QeepProofs.Run
 /-!
 # C09 (continued) — totality of the broadcasting binary operations, Dot, MatMul, Concat and the component validators
 
@@ -15,6 +16,7 @@ validator rejects → `err`; validator accepts, broadcast validator rejects → 
 That is the C09 property in full (see also the `…_never_panic` corollaries).
 -/
 set_option linter.unusedSimpArgs false
+set_option linter.unusedSectionVars false
 
 namespace Qeep
 namespace C09
@@ -493,6 +495,242 @@ example : validConcat [[2, 1], [2, 2]] 1 = true ∧
     vConcat [(⟨[2, 1], [1, 2]⟩ : Tensor Int), ⟨[2, 2], [3, 4, 5, 6]⟩] 2 = .err ∧
     vConcat ([] : List (Tensor Int)) 0 = .err := by
   decide
+
+/-! ## 5. component constructors and input validators
+
+`Out`-valued configuration / input validators of `component/**` are two-valued (`ok` / `err`, never `panic`), and a
+rejected configuration or input makes the component call return `err` with no new heap. -/
+
+theorem ite_ne {γ : Type} {c : Prop} [Decidable c] {x y z : γ} (hx : x ≠ z) (hy : y ≠ z) :
+    (if c then x else y) ≠ z := by
+  split <;> assumption
+
+section Components
+variable [Scalar α]
+
+/-- **`NewSoftmax`**: nil config → Dim 0; negative Dim → error; otherwise that Dim -/
+theorem softmaxOf_total :
+    softmaxOf (α := α) none = .ok (.softmax 0) ∧
+    (∀ d : Int, 0 ≤ d → softmaxOf (α := α) (some d) = .ok (.softmax d.toNat)) ∧
+    (∀ d : Int, d < 0 → softmaxOf (α := α) (some d) = .err) := by
+  refine ⟨rfl, ?_, ?_⟩
+  · intro d hd
+    have : ¬ d < 0 := by omega
+    simp only [softmaxOf, this, if_false]
+  · intro d hd
+    simp only [softmaxOf, hd, if_true]
+
+/-- **`toValidInputs`** (all layers): exactly one, non-nil input is accepted; anything else is an error -/
+theorem oneInput_total (xs : List (Option Nat)) :
+    (∀ x, xs = [some x] → oneInput xs = .ok x) ∧ ((∀ x, xs ≠ [some x]) → oneInput xs = .err) := by
+  constructor
+  · intro x e; rw [e]; rfl
+  · intro h
+    unfold oneInput
+    split
+    · rename_i x; exact absurd rfl (h x)
+    · rfl
+
+theorem oneInput_never_panic (xs : List (Option Nat)) : oneInput xs ≠ .panic := by
+  unfold oneInput
+  split <;> (intro hh; cases hh)
+
+/-- the rank a loss expects of prediction and target: CE `[batch, class]`, MSE / BCE `[batch]` -/
+def lossRank : Loss → Nat
+  | .ce => 2
+  | _ => 1
+
+/-- **`validateInputs`** of MSE / BCE / CE: both tensors non-nil, of the expected rank and of equal shape — `ok`;
+    anything else — `err`. -/
+theorem lossValid_total (H : Heap α) (l : Loss) (yp yt : Option Nat) :
+    (∀ p t, yp = some p → yt = some t → (H.val p).dims.length = lossRank l → (H.val t).dims.length = lossRank l →
+        (H.val p).dims = (H.val t).dims → lossValid H l yp yt = .ok (p, t)) ∧
+    ((yp = none ∨ yt = none ∨ ∃ p t, yp = some p ∧ yt = some t ∧
+        ¬ ((H.val p).dims.length = lossRank l ∧ (H.val t).dims.length = lossRank l ∧ (H.val p).dims = (H.val t).dims)) →
+      lossValid H l yp yt = .err) := by
+  constructor
+  · intro p t ep et h1 h2 h3
+    rw [ep, et]
+    cases l <;> simp only [lossRank] at h1 h2 <;> simp only [lossValid, h1, h2, h3, and_self, if_true]
+  · intro h
+    rcases h with h | h | ⟨p, t, ep, et, h⟩
+    · rw [h]; cases yt <;> rfl
+    · rw [h]; cases yp <;> rfl
+    · rw [ep, et]
+      cases l <;> simp only [lossRank] at h <;> simp only [lossValid, h, if_false]
+
+theorem lossValid_never_panic (H : Heap α) (l : Loss) (yp yt : Option Nat) : lossValid H l yp yt ≠ .panic := by
+  cases yp with
+  | none => intro hh; cases hh
+  | some p =>
+    cases yt with
+    | none => intro hh; cases hh
+    | some t =>
+      cases l <;> exact ite_ne (by intro hh; cases hh) (by intro hh; cases hh)
+
+/-- **initializer constructors** (`NewFull` … `NewXavierNormal`): `ok` or `err`, never a panic -/
+theorem initFamily_never_panic (k : InitKind α) : initFamily k ≠ .panic := by
+  cases k with
+  | full v => intro hh; cases hh
+  | uniform c => simp only [initFamily]; split <;> (intro hh; cases hh)
+  | normal c => simp only [initFamily]; split <;> (intro hh; cases hh)
+  | heUniform c =>
+    cases c with
+    | none => intro hh; cases hh
+    | some fi => simp only [initFamily]; split <;> (intro hh; cases hh)
+  | heNormal c =>
+    cases c with
+    | none => intro hh; cases hh
+    | some fi => simp only [initFamily]; split <;> (intro hh; cases hh)
+  | xavierUniform c =>
+    cases c with
+    | none => intro hh; cases hh
+    | some p => obtain ⟨fi, fo⟩ := p; simp only [initFamily]; split <;> (intro hh; cases hh)
+  | xavierNormal c =>
+    cases c with
+    | none => intro hh; cases hh
+    | some p => obtain ⟨fi, fo⟩ := p; simp only [initFamily]; split <;> (intro hh; cases hh)
+
+/-- invalid initializer configurations are errors: missing (nil) He / Xavier config, non-positive fan-in / fan-out,
+    empty uniform interval, non-positive standard deviation -/
+theorem initFamily_errors :
+    initFamily (α := α) (.heUniform none) = .err ∧ initFamily (α := α) (.heNormal none) = .err ∧
+    initFamily (α := α) (.xavierUniform none) = .err ∧ initFamily (α := α) (.xavierNormal none) = .err ∧
+    (∀ fi : Int, fi ≤ 0 → initFamily (α := α) (.heUniform (some fi)) = .err ∧ initFamily (α := α) (.heNormal (some fi)) = .err) ∧
+    (∀ fi fo : Int, fi ≤ 0 ∨ fo ≤ 0 →
+      initFamily (α := α) (.xavierUniform (some (fi, fo))) = .err ∧ initFamily (α := α) (.xavierNormal (some (fi, fo))) = .err) ∧
+    (∀ lo hi : α, Scalar.lt lo hi = false → initFamily (.uniform (some (lo, hi))) = .err) ∧
+    (∀ mu s : α, Scalar.gt s Scalar.zero = false → initFamily (.normal (some (mu, s))) = .err) := by
+  refine ⟨rfl, rfl, rfl, rfl, ?_, ?_, ?_, ?_⟩
+  · intro fi h
+    constructor <;> simp only [initFamily, h, if_true]
+  · intro fi fo h
+    constructor <;> simp only [initFamily, h, if_true]
+  · intro lo hi h
+    simp [initFamily, h]
+  · intro mu s h
+    simp [initFamily, h]
+
+/-- **`tensor.Full / RandU / RandN`** with their own parameter validation: whatever the raw draws, never a panic;
+    invalid dims are an error -/
+theorem vRandom_never_panic (f : Family α) (dims : List Int) (us zs : List α) :
+    vRandom f dims us zs ≠ some .panic := by
+  have key : ∀ (c1 c2 : Prop) [Decidable c1] [Decidable c2] (o : Option (List α)),
+      (if c1 then some (Out.err : Out (Tensor α)) else if c2 then some .err
+        else o.map (fun d => .ok ⟨natDims dims, d⟩)) ≠ some .panic := by
+    intro c1 c2 _ _ o
+    refine ite_ne (by intro hh; cases hh) (ite_ne (by intro hh; cases hh) ?_)
+    cases o with
+    | none => intro hh; cases hh
+    | some d => intro hh; cases hh
+  cases f <;> exact key _ _ _
+
+/-- invalid dims make `Full / RandU / RandN` return an error (given valid distribution parameters; invalid
+    parameters are an error too) -/
+theorem vRandom_err (f : Family α) (dims : List Int) (us zs : List α) (h : validInputDims dims = false) :
+    vRandom f dims us zs = some .err := by
+  have key : ∀ (c1 : Prop) [Decidable c1] (o : Option (Out (Tensor α))),
+      (if c1 then some (Out.err : Out (Tensor α)) else if (!validInputDims dims) = true then some .err else o) = some .err := by
+    intro c1 _ o
+    rw [h]
+    split
+    · rfl
+    · rfl
+  cases f <;> exact key _ _
+
+/-! ### rejected inputs make the component calls return `err` -/
+
+/-- every activation's `Forward`: a wrong number of inputs or a nil input is an error -/
+theorem actForward_err (a : Activation α) (xs : List (Option Nat)) (H : Heap α) (h : oneInput xs = .err) :
+    actForward a xs H = .err := by
+  unfold actForward
+  rw [hm_bind, h]
+  rfl
+
+/-- `Softmax.Forward`: an input whose rank does not exceed `Dim` is an error -/
+theorem softmaxForward_rank_err (dim : Nat) (x : Nat) (H : Heap α) (h : (H.val x).dims.length ≤ dim) :
+    actForward (.softmax dim : Activation α) [some x] H = .err := by
+  unfold actForward
+  have e : (liftOut (oneInput [some x]) : HM α Nat) H = .ok (x, H) := rfl
+  rw [bind_run e]
+  simp only []
+  have g : (getHeap : HM α (Heap α)) H = .ok (H, H) := rfl
+  rw [bind_run g]
+  simp only [h, if_true]
+  rfl
+
+/-- `FC.Forward`: a wrong number of inputs, a nil input or an input that is not `[batch, data]` is an error -/
+theorem fcForward_err (c : FC) (xs : List (Option Nat)) (H : Heap α) :
+    (oneInput xs = .err → fcForward c xs H = .err) ∧
+    (∀ x, xs = [some x] → (H.val x).dims.length ≠ 2 → fcForward c xs H = .err) := by
+  constructor
+  · intro h
+    unfold fcForward
+    rw [hm_bind, h]
+    rfl
+  · intro x e h
+    rw [e]
+    unfold fcForward
+    have e1 : (liftOut (oneInput [some x]) : HM α Nat) H = .ok (x, H) := rfl
+    rw [bind_run e1]
+    have g : (getHeap : HM α (Heap α)) H = .ok (H, H) := rfl
+    rw [bind_run g]
+    simp only [h, ne_eq, not_false_eq_true, if_true]
+    rfl
+
+/-- The one modelled panic of the component layer (NOT an instance of C09 holding): an `FC` whose exported `Weight`
+    field was set to nil by the caller makes `Forward` on a valid input panic (`c.Weight.UnSqueeze(1)` on a nil
+    interface) — the input validator does not look at the layer's own fields. A nil `Bias`, by contrast, is an error
+    (`Add` rejects a nil operand). -/
+theorem fcForward_nil_weight_panics (b : Option Nat) (x : Nat) (H : Heap α) (h : (H.val x).dims.length = 2) :
+    fcForward (α := α) ⟨none, b⟩ [some x] H = .panic := by
+  unfold fcForward
+  have e1 : (liftOut (oneInput [some x]) : HM α Nat) H = .ok (x, H) := rfl
+  rw [bind_run e1]
+  have g : (getHeap : HM α (Heap α)) H = .ok (H, H) := rfl
+  rw [bind_run g]
+  simp only [h, ne_eq, not_true_eq_false, if_false]
+  rfl
+
+/-- the three losses' `Compute`: rejected inputs (nil, wrong rank, unequal shapes) are an error -/
+theorem lossCompute_err (l : Loss) (yp yt : Option Nat) (H : Heap α) (h : lossValid H l yp yt = .err) :
+    lossCompute l yp yt H = .err := by
+  unfold lossCompute
+  have g : (getHeap : HM α (Heap α)) H = .ok (H, H) := rfl
+  rw [bind_run g, hm_bind, h]
+  rfl
+
+/-- `Accuracy.Accumulate`: nil operands, operands that are not rank 1 or of unequal shape are an error -/
+theorem accAccumulate_err (c : Accuracy) (yp yt : Option Nat) (H : Heap α) :
+    (yp = none ∨ yt = none → accAccumulate c yp yt H = .err) ∧
+    (∀ p t, yp = some p → yt = some t →
+      ¬ ((H.val p).dims.length = 1 ∧ (H.val t).dims.length = 1 ∧ (H.val p).dims = (H.val t).dims) →
+      accAccumulate c yp yt H = .err) := by
+  have g : (getHeap : HM α (Heap α)) H = .ok (H, H) := rfl
+  constructor
+  · intro h
+    unfold accAccumulate
+    rw [bind_run g]
+    rcases h with h | h
+    · rw [h]; rfl
+    · rw [h]; cases yp <;> rfl
+  · intro p t ep et h
+    rw [ep, et]
+    unfold accAccumulate
+    rw [bind_run g]
+    simp only [h, if_false]
+    rfl
+
+/-- non-vacuity (kernel-checked on `Int`): configuration and input validators on concrete data -/
+example : softmaxOf (α := Int) (some (-1)) = .err ∧ oneInput [] = .err ∧ oneInput [none] = .err ∧
+    oneInput [some 0, some 1] = .err ∧ oneInput [some 3] = .ok 3 ∧
+    lossValid (#[⟨⟨[2], [1, 2]⟩, {}⟩, ⟨⟨[3], [1, 2, 3]⟩, {}⟩] : Heap Int) .mse (some 0) (some 1) = .err ∧
+    lossValid (#[⟨⟨[2], [1, 2]⟩, {}⟩, ⟨⟨[3], [1, 2, 3]⟩, {}⟩] : Heap Int) .mse (some 0) (some 0) = .ok (0, 0) ∧
+    lossValid (#[⟨⟨[2], [1, 2]⟩, {}⟩, ⟨⟨[3], [1, 2, 3]⟩, {}⟩] : Heap Int) .ce (some 0) (some 0) = .err ∧
+    lossValid (#[⟨⟨[2], [1, 2]⟩, {}⟩] : Heap Int) .bce (some 0) none = .err := by
+  decide
+
+end Components
 
 end C09
 end Qeep
